@@ -1,27 +1,36 @@
 ------------------------------- MODULE HtmMatchMC -------------------------------
 (* The matcher as a state machine, small scope:                                    *)
-(*   AddP2* ; New ; ( (AddP1+ | SelfCall) ; ChooseRad ; ChooseK ; MechStep* )*     *)
+(*   AddP2* ; New ; ( (AddP1+ | SelfCall) ; ChooseRad ; (ChooseK ; MechStep* ; MechDone | ChooseKs) )* *)
 (*  - the abstract state of a matcher is its own point list p2, frozen by New      *)
 (*    (StateFrozen); a call's allowed results are a function of (p2, call) only -  *)
 (*    no depth, no history - so every path through the machine is a behaviour the  *)
 (*    real Matcher / HTM.match must reproduce call by call (exported and replayed); *)
-(*  - MechStep runs an implementation-shaped model of htmc.cc Matcher::match on     *)
-(*    the call (per first-set point: candidates from the triangle cover, distance   *)
-(*    filter dis <= rad, unstable sort by distance, truncation to maxmatch, append) *)
-(*    and MechRefines states that whatever it produces is accepted by the           *)
-(*    property-level Failing of HtmMatch.tla;                                       *)
+(*  - Next (model checking): ChooseK picks ONE maxmatch and MechStep runs an        *)
+(*    implementation-shaped model of htmc.cc Matcher::match on the call (per        *)
+(*    first-set point: candidates from the triangle cover, distance filter          *)
+(*    dis <= rad, unstable sort by distance, truncation to maxmatch, append);       *)
+(*    MechRefines states that whatever it produces is accepted by the property-     *)
+(*    level Failing of HtmMatch.tla.  Deviation # "none" selects a deviating        *)
+(*    mechanism (a cover that loses a candidate; truncation before the sort) that   *)
+(*    must VIOLATE MechRefines - the non-vacuity self-tests of the harness;         *)
 (*  - RefAccepted: the property-level spec is satisfiable on every call (its own    *)
-(*    reference result is accepted).                                                *)
+(*    reference result is accepted);                                                *)
+(*  - NextExport (case generation, also under -simulate): ChooseKs records the      *)
+(*    list of maxmatch values the call is to be made with (KMode "each": one of     *)
+(*    KSet, "sweep": all of KSet in ascending order on the same matcher), Finish    *)
+(*    ends a life and Export prints it.                                             *)
 EXTENDS HtmMatch, Json
 
 CONSTANTS Kind,        \* "gc" | "rs"
-          Scope,       \* "q" | "t" | "s" : which sub-lattice / radius catalogue (below)
+          Scope,       \* "q" | "t" | "s" | "m" | "h" : which sub-lattice / radius catalogue (below)
           MaxN2,       \* matcher sets of 1..MaxN2 points (sequences: order and duplicates matter)
           MaxN1,       \* searched sets of 1..MaxN1 points (plus the self-match p1 = p2)
           MaxCalls,    \* calls per matcher life
           PerPoint,    \* TRUE: also one radius per point
           Deviation,   \* "none" | "lossy_cover" | "truncate_unsorted" (the two deviating variants are self-tests)
-          DoExport     \* TRUE: print every finished life as JSON
+          DoExport,    \* TRUE: print every finished life as JSON
+          KMode        \* export runs only - "each": a call carries ONE maxmatch of KSet; "sweep": a call is made
+                       \* with EVERY maxmatch of KSet, ascending, one after the other on the same matcher
 
 VARIABLES phase, p2, calls, cur, mech
 vars == <<phase, p2, calls, cur, mech>>
@@ -49,10 +58,23 @@ RsRadQ == {<<4, 5>>, <<1, 2>>, <<0, 1>>, <<-1, 1>>}
 RsRadT == RsRadQ \cup {<<1, 1>>, <<224, 225>>, <<24, 25>>, <<3, 5>>, <<-1, 2>>, <<-4, 5>>, <<2, 3>>}
 RsRadS == RsRadT \cup {<<8, 9>>, <<-2, 3>>, <<1, 3>>, <<-3, 5>>, <<99, 100>>, <<-99, 100>>, <<12, 13>>}
 
-Pos   == IF Kind = "gc" THEN (IF Scope = "q" THEN GcPosQ ELSE IF Scope = "t" THEN GcPosT ELSE GcPosS)
-         ELSE (IF Scope = "q" THEN RsPosQ ELSE IF Scope = "t" THEN RsPosT ELSE RsPosS)
-Radii == IF Kind = "gc" THEN (IF Scope = "q" THEN GcRadQ ELSE IF Scope = "t" THEN GcRadT ELSE GcRadS)
-         ELSE (IF Scope = "q" THEN RsRadQ ELSE IF Scope = "t" THEN RsRadT ELSE RsRadS)
+\* scope "m" (great circle only) - micro-degree radii: the harness binds eps = 1e-7 degree, so the radii below are
+\* 1.05e-6 .. 2.45e-6 degree (the statement's radii start at 1e-6) and the points sit a few 1e-7 degree either side
+\* of position 45 (equator: a vertex of the depth-1 mesh) and of the origin (seam / octant corner)
+GcPosM == {<<45, -13>>, <<45, -1>>, <<45, 0>>, <<45, 1>>, <<45, 8>>, <<0, -13>>, <<0, 1>>}
+GcRadM == {<<0, 21>>, <<0, 29>>, <<0, 31>>, <<0, 49>>}
+\* scope "h" - tiny catalogue for exhaustive multi-call lives (history independence)
+GcPosH == {<<0, 0>>, <<0, 1>>, <<180, 1>>}
+GcRadH == {<<0, 3>>, <<180, -1>>}
+RsPosH == {<<1, 0, 0, 1>>, <<3, 4, 0, 5>>, <<-1, 0, 0, 1>>}
+RsRadH == {<<1, 2>>, <<-1, 1>>}
+
+Pos   == IF Kind = "gc" THEN (CASE Scope = "q" -> GcPosQ [] Scope = "t" -> GcPosT [] Scope = "s" -> GcPosS
+                                [] Scope = "m" -> GcPosM [] Scope = "h" -> GcPosH)
+         ELSE (CASE Scope = "q" -> RsPosQ [] Scope = "t" -> RsPosT [] Scope = "s" -> RsPosS [] Scope = "h" -> RsPosH)
+Radii == IF Kind = "gc" THEN (CASE Scope = "q" -> GcRadQ [] Scope = "t" -> GcRadT [] Scope = "s" -> GcRadS
+                                [] Scope = "m" -> GcRadM [] Scope = "h" -> GcRadH)
+         ELSE (CASE Scope = "q" -> RsRadQ [] Scope = "t" -> RsRadT [] Scope = "s" -> RsRadS [] Scope = "h" -> RsRadH)
 
 ASSUME Kind = "rs" => \A p \in Pos : RsIsPoint(p)
 ASSUME Kind = "gc" => \A p \in Pos : GcIsPos(p)
@@ -88,14 +110,21 @@ ChooseRad == /\ phase = "p1" /\ Len(cur.p1) >= 1
              /\ phase' = "k" /\ UNCHANGED <<p2, calls, mech>>
 
 CallWith(k) == [kind |-> Kind, p2 |-> p2, p1 |-> cur.p1, rad |-> cur.rad, k |-> k]
-KSet == {-1, 0, 1, 2, 3, MaxGroup(CallWith(0)) + 1}
+KSet == IF Scope = "h" THEN {0, 1} ELSE {-1, 0, 1, 2, 3, MaxGroup(CallWith(0)) + 1}
 
-ChooseK(runmech) ==
+ChooseK ==                                \* model-checking flavour: one maxmatch, then the mechanism runs
     /\ phase = "k"
     /\ \E k \in KSet : calls' = Append(calls, [p1 |-> cur.p1, rad |-> cur.rad, k |-> k])
     /\ cur' = NoCall
-    /\ IF runmech THEN phase' = "mech" /\ mech' = [on |-> TRUE, i |-> 1, out |-> <<>>]
-       ELSE phase' = "idle" /\ mech' = NoMech
+    /\ phase' = "mech" /\ mech' = [on |-> TRUE, i |-> 1, out |-> <<>>]
+    /\ UNCHANGED p2
+
+\* export flavour: the exported call record carries the list ks of maxmatch values it is to be made with
+ChooseKs ==
+    /\ phase = "k"
+    /\ \E ks \in (IF KMode = "sweep" THEN {VSortSet(KSet)} ELSE {<<k>> : k \in KSet}) :
+          calls' = Append(calls, [p1 |-> cur.p1, rad |-> cur.rad, ks |-> ks])
+    /\ cur' = NoCall /\ phase' = "idle" /\ mech' = NoMech
     /\ UNCHANGED p2
 
 LastCall == LET e == calls[Len(calls)] IN [kind |-> Kind, p2 |-> p2, p1 |-> e.p1, rad |-> e.rad, k |-> e.k]
@@ -136,8 +165,8 @@ MechDone ==
 
 Finish == /\ phase = "idle" /\ Len(calls) >= 1 /\ phase' = "done" /\ UNCHANGED <<p2, calls, cur, mech>>
 
-Next       == AddP2 \/ New \/ AddP1 \/ SelfCall \/ ChooseRad \/ ChooseK(TRUE) \/ MechStep \/ MechDone
-NextExport == AddP2 \/ New \/ AddP1 \/ SelfCall \/ ChooseRad \/ ChooseK(FALSE) \/ Finish
+Next       == AddP2 \/ New \/ AddP1 \/ SelfCall \/ ChooseRad \/ ChooseK \/ MechStep \/ MechDone
+NextExport == AddP2 \/ New \/ AddP1 \/ SelfCall \/ ChooseRad \/ ChooseKs \/ Finish
 Spec == Init /\ [][Next]_vars
 
 \* ---- properties -----------------------------------------------------------------------------
